@@ -289,7 +289,7 @@ def run_squid(scn, rundir, init=True, phase_name='run', timeout=300):
         key = hashlib.sha1('\n'.join(l for l in scn.conf.split('\n') if l.startswith('cache_dir')).encode()).hexdigest()[:12]
         tpl = _TEMPLATES.get(key)
         if tpl is None or not os.path.isdir(tpl):
-            tpl = os.path.join(os.path.dirname(rundir.rstrip('/')), 'tpl-%s-%d' % (key, os.getpid()))
+            tpl = os.path.join(os.path.dirname(rundir.rstrip('/')), 't' + hashlib.sha1(('%s/%d' % (key, os.getpid())).encode()).hexdigest()[:7])
             shutil.rmtree(tpl, ignore_errors=True)
             h0 = run_scn(scn.init_text(), tpl, phase_name='init', timeout=timeout)
             if h0.rc != 0:
@@ -299,6 +299,19 @@ def run_squid(scn, rundir, init=True, phase_name='run', timeout=300):
         os.makedirs(rundir, exist_ok=True)
         _instantiate(os.path.join(tpl, 'cache'), os.path.join(rundir, 'cache'))
     return run_scn(scn.text(), rundir, phase_name=phase_name, timeout=timeout)
+
+def scratch_root():
+    """fresh scratch directory with a fixed-length path (squid writes its scratch paths into helper traffic and logs, so the
+    length of the path must not differ between a run and its re-runs or history sizes would differ)"""
+    base = os.environ.get('VERIF_TMP', '/dev/shm')
+    tag = hashlib.sha1(('%d/%f' % (os.getpid(), __import__('time').time())).encode()).hexdigest()[:8]
+    root = os.path.join(base, 'vr-' + tag)
+    os.makedirs(root, exist_ok=True)
+    return root
+
+def fixed_name(tag):
+    """8-character directory name derived from an arbitrary tag"""
+    return 'x' + hashlib.sha1(tag.encode()).hexdigest()[:7]
 
 def cleanup_rundir(rundir):
     tag = rundir.replace('/', '_')
@@ -426,7 +439,8 @@ class Hist:
     def fingerprint(self):
         h = hashlib.sha256()
         h.update(self.raw.encode('utf-8', 'replace'))
-        h.update(hashlib.sha256(self.bin).digest())
+        # squid writes its own scratch paths to helpers (unlinkd) and logs: make the fingerprint independent of where the run lived
+        h.update(hashlib.sha256(self.bin.replace(self.rundir.encode(), b'@RUN@')).digest())
         return h.hexdigest()
     def sim_seconds(self):
         if not self.events:
